@@ -190,6 +190,13 @@ def _t_skip_zero_step(tree):
     M.replace_stmt(g, lambda s: isinstance(s, ast.For) and M.src_is(s.iter, "range(n + 1)") and M.src_has(s, "row_potential[col_match[j]] += delta"), lambda s: [ast.If(test=M.expr("delta != 0"), body=[s], orelse=[])])
 
 
+def _v_cached_work_matrix(tree):
+    g = M.find_func(tree, "solve_hungarian")
+    M.replace_expr(g, lambda e: M.src_is(e, "[[0.0] * n for _ in range(n)]"), M.expr("_work_matrix(n)"))
+    idx = tree.body.index(g)
+    tree.body[idx:idx] = M.stmts("from functools import lru_cache\n@lru_cache(maxsize=64)\ndef _work_matrix(n):\n    return [[0.0] * n for _ in range(n)]")
+
+
 def _t_reformat(tree):
     pass
 
@@ -210,6 +217,7 @@ VARIANTS = [
     M.Variant("column index off by one in extraction", HU, _v_offby, "C10-O2"),
     M.Variant("dual update applied only for positive steps (seed C10-B)", HU, _v_update_only_positive, "C10-O4"),
     M.Variant("twin: dual update skipped for a zero step", HU, _t_skip_zero_step, None),
+    M.Variant("padded work matrix comes from an lru_cache and keeps the padding of the previous call (seed C10-D)", HU, _v_cached_work_matrix, "C10-G3"),
     M.Variant("twin: reformat", HU, _t_reformat, None),
     M.Variant("twin: rename assignment / objective / working matrix", HU, _t_rename, None),
 ]
